@@ -88,4 +88,7 @@ META.update({
               '3.11', 'Held on the enumerated fault product (about 2400 reached cells per run in py and c) and on the recorded thread schedules; '
               'valgrind memcheck reports no error on the scripted cases run with the dict-free-list flood.  Says nothing about callback points the product does not contain or schedules the GIL did not produce.',
               'Trusted: valgrind memcheck with PYTHONMALLOC=malloc; cold-replay answers as the before/after reference; refcount ownership rule of the audit.'),
+    'C10': _m('runtime monitoring: differential trace monitor - the same seeded API program under PURE_PYTHON=1 and with the rebuilt C accelerator in separate processes, canonical traces compared step by step; ASan/UBSan and valgrind on the C side (thorough)',
+              '3.10', 'Held on the recorded programs (thousands of steps per run, error-path grammar included); the first differing step is the witness.',
+              'Trusted: canonical rendering (types of exceptions, not messages); gc.collect() before operations that consult the weak instance-declaration cache.'),
 })
